@@ -452,9 +452,23 @@ fn main() {
                 cx.note(format!("map gadget: 1-deviation faults on every {stride}-th assignment index (offset 3), faults {{+1, zero, random}}"));
                 cx.cap(format!("map gadget fault sweep uses a stride of {stride} over the assignment indices"));
                 let mut mf: Vec<(String, (mapops::MapCase, u32, Vec<u64>))> = vec![];
+                let mut mkf: Vec<(String, (mapops::MapCase, u32, Vec<u64>))> = vec![];
                 for (key, c) in &mcases {
                     let Some((_, k, n)) = info.iter().find(|(kk, _, _)| kk == key) else { continue };
                     let idxs: Vec<u64> = (3..*n).step_by(stride as usize).collect();
+                    // plus the first assignment of every cell kind (region name, column, offset):
+                    // the circuit is ~10^4..10^5 assignments of a few hundred kinds
+                    // (quick: for the longest sequence only, one fault value; thorough: all sequences)
+                    let is_last = mcases.last().map(|(kk, _)| kk == key).unwrap_or(false);
+                    if tier.is_thorough() || is_last {
+                        if let Some(kinds) = vcore::in_pool(1, || vgad::trace_kinds(c, *k)) {
+                            let reps: Vec<u64> = vgad::kind_representatives(&kinds, 1).into_iter().filter(|i| !idxs.contains(i)).collect();
+                            cx.note(format!("map gadget {key}: {} cell kinds, {} indices beyond the stride", kinds.len(), reps.len()));
+                            for (ci, chunk) in reps.chunks(8).enumerate() {
+                                mkf.push((format!("{key}#k{ci}"), (c.clone(), *k, chunk.to_vec())));
+                            }
+                        }
+                    }
                     for (ci, chunk) in idxs.chunks(4).enumerate() {
                         mf.push((format!("{key}#{ci}"), (c.clone(), *k, chunk.to_vec())));
                     }
@@ -463,6 +477,12 @@ fn main() {
                 cx.run_cases("map-faults", &mf, |(c, k, idxs)| {
                     let mut out = CaseOut::batch();
                     vgad::explore_faults(c, *k, idxs, &f3, &mut out);
+                    out
+                });
+                let f1: Vec<_> = f3.iter().filter(|(n, _)| tier.is_thorough() || *n == "+1").cloned().collect();
+                cx.run_cases("map-kind-faults", &mkf, |(c, k, idxs)| {
+                    let mut out = CaseOut::batch();
+                    vgad::explore_faults(c, *k, idxs, &f1, &mut out);
                     out
                 });
             }
